@@ -160,9 +160,11 @@ ALLOWED_AXIOMS = set()   # every property theorem must be "Closed under the glob
 
 # auxiliary theorem files a property's check also re-checks (tie of the model to things outside it)
 AUX_PROPS = {
-    "C01": ["Heapq"],                    # CPython's heapq refines the abstract queue
+    "C01": ["Heapq", "Translated"],      # CPython's heapq refines the abstract queue; EventQueue put/get/routing translated
     "C02": ["Translated"], "C07": ["Translated", "Adv"], "C12": ["Translated"], "C14": ["Translated"],   # tools/translate.py ; stock dialogs
-    "C17": ["C17sep"],                   # the separator clause over whole sessions (screen-layer model)
+    "C03": ["Translated"], "C10": ["Translated"],                      # enqueue_signal routing ; ticket machine
+    "C04": ["Translated"], "C05": ["Translated"], "C06": ["Translated"], "C08": ["Translated"], "C18": ["Translated"],   # screen stack, signal sites
+    "C17": ["C17sep", "Translated"],     # the separator clause over whole sessions (screen-layer model); spacer / press-ENTER text
     "C09": ["C09s"],                     # the screen-level clauses of C09
 }
 
